@@ -33,21 +33,32 @@ NAMES = ["a", "b", "a_", "aB", "B", "data", "valid", "x", "y", "A1", "ab", "z9"]
 _ENUM_CACHE = {}
 
 
-def gen_shape(rng):
+def _pick_init(rng, lo, hi, p_none=.35):
+    """None, or a value in lo..hi with the ends of the range, -1 and 0 over-represented"""
+    if rng.random() < p_none:
+        return None
+    edge = [v for v in (lo, hi, -1, 0, lo + 1, hi - 1) if lo <= v <= hi]
+    return rng.choice(edge) if rng.random() < .5 else rng.randint(lo, hi)
+
+
+def gen_shape(rng, signed_bias=False):
     """returns (spec, raw_init) ; raw_init is what is passed as init= (None allowed)"""
-    k = rng.choice(["u", "u", "u", "s", "int", "range", "struct", "arrl", "union", "enum", "enum_s"])
+    kinds = ["u", "u", "u", "s", "int", "range", "struct", "arrl", "union", "enum", "enum_s"]
+    if signed_bias:
+        kinds += ["s", "s", "enum_s", "enum_s", "range"]
+    k = rng.choice(kinds)
     if k == "u":
         w = rng.choice([0, 1, 1, 2, 3, 4, 8, 9])
-        return {"k": "u", "w": w}, (None if (w == 0 or rng.random() < .5) else rng.randrange(1 << w))
+        return {"k": "u", "w": w}, (None if w == 0 else _pick_init(rng, 0, (1 << w) - 1, .5))
     if k == "s":
         w = rng.choice([1, 2, 3, 4, 8])
-        return {"k": "s", "w": w}, (None if rng.random() < .5 else rng.randrange(-(1 << (w - 1)), 1 << (w - 1)))
+        return {"k": "s", "w": w}, _pick_init(rng, -(1 << (w - 1)), (1 << (w - 1)) - 1)
     if k == "int":
         w = rng.choice([1, 2, 5])
         return {"k": "int", "w": w}, (None if rng.random() < .5 else rng.randrange(1 << w))
     if k == "range":
-        lo = rng.choice([0, 0, -3, 2]); hi = lo + rng.choice([1, 2, 5, 9])
-        return {"k": "range", "lo": lo, "hi": hi}, (None if rng.random() < .5 else rng.randrange(lo, hi))
+        lo = rng.choice([0, 0, -3, -4, -1, 2]); hi = lo + rng.choice([1, 2, 5, 7, 9])
+        return {"k": "range", "lo": lo, "hi": hi}, _pick_init(rng, lo, hi - 1, .4)
     if k == "struct":
         fields = []
         for i in range(rng.randint(1, 3)):
@@ -58,7 +69,8 @@ def gen_shape(rng):
             init = {}
             for n, w, sg in fields:
                 if rng.random() < .7 and w > 0:
-                    init[n] = rng.randrange(-(1 << (w - 1)), 1 << (w - 1)) if sg else rng.randrange(1 << w)
+                    init[n] = (_pick_init(rng, -(1 << (w - 1)), (1 << (w - 1)) - 1, 0) if sg
+                               else _pick_init(rng, 0, (1 << w) - 1, 0))
         return {"k": "struct", "fields": fields}, init
     if k == "arrl":
         w = rng.choice([1, 2, 3]); n = rng.choice([0, 1, 2, 3])
@@ -75,9 +87,16 @@ def gen_shape(rng):
         w = rng.choice([1, 2, 3])
         vals = sorted({0} | {rng.randrange(1 << w) for _ in range(rng.randint(1, 3))})
         return {"k": "enum", "w": w, "sg": False, "vals": vals}, (None if rng.random() < .4 else rng.choice(vals))
-    w = rng.choice([2, 3])
-    vals = sorted({0} | {rng.randrange(-(1 << (w - 1)), 1 << (w - 1)) for _ in range(rng.randint(1, 3))})
-    return {"k": "enum", "w": w, "sg": True, "vals": vals}, (None if rng.random() < .4 else rng.choice(vals))
+    w = rng.choice([1, 2, 3, 4])
+    lo, hi = -(1 << (w - 1)), (1 << (w - 1)) - 1
+    vals = {0} | {rng.randint(lo, hi) for _ in range(rng.randint(1, 3))}
+    if rng.random() < .6:
+        vals |= {lo}                    # the most negative value of the shape
+    if rng.random() < .4:
+        vals |= {hi, -1}
+    vals = sorted(vals)
+    return {"k": "enum", "w": w, "sg": True, "vals": vals}, (None if rng.random() < .3 else
+                                                             rng.choice([vals[0], vals[-1], rng.choice(vals)]))
 
 
 def shape_obj(spec):
@@ -179,7 +198,7 @@ def gen_dims(rng, allow_zero=True):
     return [rng.choice(([0] if allow_zero else []) + [1, 2, 2, 3]) for _ in range(n)]
 
 
-def gen_sig(rng, depth, fl=False, all_out=False, iface_arrays=True, budget=None):
+def gen_sig(rng, depth, fl=False, all_out=False, iface_arrays=True, budget=None, signed_bias=False):
     """list of (name, member). `fl`: how this level is seen (for all_out)."""
     if budget is None:
         budget = [24]
@@ -192,10 +211,10 @@ def gen_sig(rng, depth, fl=False, all_out=False, iface_arrays=True, budget=None)
         if depth > 1 and rng.random() < .4:
             df = rng.random() < .3
             dims = gen_dims(rng) if iface_arrays else []
-            sub = gen_sig(rng, depth - 1, sub_flag(fl, flow, df), all_out, iface_arrays, budget)
+            sub = gen_sig(rng, depth - 1, sub_flag(fl, flow, df), all_out, iface_arrays, budget, signed_bias)
             members.append((name, {"t": "iface", "f": flow, "df": df, "sig": sub, "dims": dims}))
         else:
-            spec, raw = gen_shape(rng)
+            spec, raw = gen_shape(rng, signed_bias)
             if all_out:
                 flow = eff("o", fl)          # so that the leaf is seen as an output
             dims = gen_dims(rng)
@@ -279,7 +298,8 @@ def create_attrs(sig):
     for n, m in sig:
         if m["t"] == "port":
             w, sg, iv = shape_info(m["shape"], m["init"])
-            attrs.append((n, mk_arr(m["dims"], lambda: {"t": "signal", "w": w, "s": sg, "init": iv})))
+            attrs.append((n, mk_arr(m["dims"], lambda m=m, w=w, sg=sg, iv=iv: {"t": "signal", "w": w, "s": sg, "init": iv,
+                                                                          "shape": m["shape"]})))
         else:
             attrs.append((n, mk_arr(m["dims"], lambda m=m: {"t": "iface", "w": sub_flag(False, m["f"], m["df"]),
                                                             "fl": False, "sig": m["sig"],
@@ -309,12 +329,25 @@ class Plain:
     pass
 
 
+def view_signal(spec, w, sg, init):
+    """a signal of width/signedness (w, sg) with constant initial value `init`; when `spec` is an
+    aggregate or enumeration of exactly that shape the signal is wrapped in its view (what
+    `Signature.create()` puts into an interface for such a port), otherwise it is a bare Signal"""
+    from amaranth.hdl import Signal, Shape
+    sig = Signal(Shape(w, sg), init=init)
+    if spec is not None and spec["k"] in ("struct", "union", "arrl", "enum"):
+        sw, ssg, _ = shape_info(spec, None)
+        if (sw, ssg) == (w, sg):
+            return shape_obj(spec)(sig)
+    return sig
+
+
 def realize(o):
     from amaranth.hdl import Signal, Const, Shape
     from amaranth.lib import wiring
     t = o["t"]
     if t == "signal":
-        return Signal(Shape(o["w"], o["s"]), init=o["init"])
+        return view_signal(o.get("shape"), o["w"], o["s"], o["init"])
     if t == "const":
         return Const(o["v"], Shape(o["w"], o["s"]))
     if t == "arr":
@@ -564,7 +597,7 @@ def ser_args(args):
     return "(connect " + " ".join(out) + ")"
 
 
-def run_connect(args, order, rng_seed, simulate):
+def run_connect(args, order, rng_seed, simulate, obj_edit=None):
     """build the real objects, connect them in `order`; returns observation dict"""
     from amaranth.hdl import Module, Const, Signal, Value, Shape
     from amaranth.lib import wiring
@@ -578,6 +611,11 @@ def run_connect(args, order, rng_seed, simulate):
         obj = S.create(path=(f"h{h}",))
         for p, container, key, m in raw_leaves(obj, sig):
             w, sg, iv = shape_info(m["shape"], m["init"])
+            if obj_edit is not None and obj_edit[0] == h and obj_edit[1] == p:
+                # single-point corruption of the interface *object*: same place, another signal
+                _h, _p, what, nw, niv = obj_edit
+                container[key] = view_signal(m["shape"], nw, sg, niv)
+                w, iv = nw, niv
             if p in consts:
                 container[key] = Const(consts[p], Shape(w, sg))
                 c = container[key]
@@ -588,6 +626,11 @@ def run_connect(args, order, rng_seed, simulate):
             slot[id(c)] = (h, p)
         objs.append(obj)
     res = {}
+    if obj_edit is not None:
+        try:
+            res["compliant"] = "ok:" + str(int(objs[obj_edit[0]].signature.is_compliant(objs[obj_edit[0]])))
+        except Exception as e:
+            res["compliant"] = "error:" + type(e).__name__
     m = Module()
     try:
         wiring.connect(m, *[objs[i] for i in order])
@@ -667,6 +710,73 @@ def case_connect(args, label, seed, simulate):
         rec["perm"] = run_connect(args, order, seed, False)
     except Exception as e:
         rec["perm"] = {"result": "error:build:" + errname(e)}
+    return rec
+
+
+def abs_edit(o, path, fn):
+    """functional update of the leaf of an abstract object reached by an indexed path"""
+    if not path:
+        return fn(dict(o))
+    o = dict(o)
+    if o["t"] == "arr":
+        items = list(o["items"])
+        items[path[0]] = abs_edit(items[path[0]], path[1:], fn)
+        o["items"] = items
+    else:
+        attrs = list(o["attrs"])
+        i = [n for n, _v in attrs].index(path[0])
+        attrs[i] = (attrs[i][0], abs_edit(attrs[i][1], path[1:], fn))
+        o["attrs"] = attrs
+    return o
+
+
+def is_view_shape(spec):
+    return spec["k"] in ("struct", "union", "arrl", "enum")
+
+
+def obj_corruptions(rng, args):
+    """single-point corruptions of one *interface object* of a compliant tuple (the signatures stay
+    as they are): a leaf signal replaced by one with another initial value / another width.
+    One site anywhere, one site on a leaf whose attribute is a view (aggregate / enumeration)."""
+    out = []
+    sites = []
+    for h, (fl, sig, consts) in enumerate(args):
+        for p, d, m in leaf_paths(fl, sig):
+            w, sg, iv = shape_info(m["shape"], m["init"])
+            if w > 0 and p not in consts:
+                sites.append((h, p, m, w, sg, iv))
+    if not sites:
+        return out
+    views = [x for x in sites if is_view_shape(x[2]["shape"])]
+    picks = [("obj-init", rng.choice(sites)), ("obj-width", rng.choice(sites))]
+    if views:
+        picks.append(("obj-init", rng.choice(views)))
+        picks.append(("obj-init", rng.choice(views)))
+    for what, (h, p, m, w, sg, iv) in picks:
+        lo, hi = (-(1 << (w - 1)), (1 << (w - 1)) - 1) if sg else (0, (1 << w) - 1)
+        if what == "obj-init":
+            cands = [v for v in (iv + 1, iv - 1, lo, hi, 0) if lo <= v <= hi and v != iv]
+            if not cands:
+                continue
+            out.append((what, (h, p, what, w, rng.choice(cands))))
+        else:
+            out.append((what, (h, p, what, w + 1, iv)))
+    return out
+
+
+def case_connect_obj(args, edit, seed):
+    h, p, what, nw, niv = edit
+    fl, sig, _c = args[h]
+    spec = dict(next(m for pp, _d, m in leaf_paths(fl, sig) if pp == p))["shape"]
+    aobj = abs_edit(create_obj(fl, sig), p, lambda x: {**x, "w": nw, "init": niv})
+    rec = {"kind": "connect_obj", "req": f"(compliant {ser_sv(fl, sig)} {ser_obj(aobj)})", "label": what,
+           "args": args, "edit": [h, pstr(p), what, nw, niv], "view_leaf": is_view_shape(spec), "shape_kind": spec["k"]}
+    order = list(range(len(args)))
+    try:
+        rec["impl"] = run_connect(args, order, seed, False, obj_edit=edit)
+        rec["perm"] = run_connect(args, order[::-1], seed, False, obj_edit=edit)
+    except Exception as e:
+        rec["crash"] = errname(e) + ":" + str(e)[:120]
     return rec
 
 
@@ -943,8 +1053,11 @@ def work(seed, n_trees, n_tuples, n_meta, quick):
         recs.append(case_connect(args, "base", rng.randrange(1 << 30), True))
         for label, a in corruptions(rng, args):
             recs.append(case_connect(a, label, rng.randrange(1 << 30), label in ("signedness", "add-const", "drop-const", "flip-port", "shuffle-members")))
+        if True:
+            for _label, edit in obj_corruptions(rng, args):
+                recs.append(case_connect_obj(args, edit, rng.randrange(1 << 30)))
     for i in range(n_meta):
-        sig = gen_sig(rng, rng.choice([1, 2, 3, 4]), False)
+        sig = gen_sig(rng, rng.choice([1, 2, 3, 4]), False, signed_bias=(i % 2 == 0))
         recs.append(case_meta(sig, i % 4 == 0))
     return recs
 
@@ -974,7 +1087,7 @@ def run(chk):
     quick = chk.tier == "quick"
     workers = min(16, os.cpu_count() or 4)
     n_jobs = workers * (1 if quick else 12)
-    per = {"trees": 14 if quick else 40, "tuples": 9 if quick else 30, "meta": 4 if quick else 6}
+    per = {"trees": 14 if quick else 40, "tuples": 9 if quick else 30, "meta": 6 if quick else 8}
     seeds = [chk.rng.randrange(1 << 30) for _ in range(n_jobs)]
     recs = []
     # fixed witnesses first: F10 (p19), F13, dims boundary (p16)
@@ -1167,8 +1280,33 @@ def run(chk):
                 chk.extra.setdefault("witnesses", {})[rec["witness"]] = {"impl": ir, "model": mres[:60], "spec": sres[:60]}
             if len(chk.cov["samples"]) < 5 and rec["label"] != "base":
                 chk.sample({"request": rec["req"][:400], "label": rec["label"], "impl": ir, "driver": resp[:200]})
+        elif kind == "connect_obj":
+            chk.distinct(("connect_obj", rec["req"], tuple(rec["edit"])))
+            chk.hist("obj_side_corruption", f"{rec['label']}/{'view:' + rec['shape_kind'] if rec['view_leaf'] else 'signal'}")
+            if "crash" in rec:
+                report("connect-obj", f"building the corrupted tuple crashed: {rec['crash']}", rec, resp, set(), False)
+                continue
+            if d["model"] != "ok:0":
+                raise common.Infra("object-side corruption left the object compliant in the model: " + rec["req"][:300])
+            impl, perm = rec["impl"], rec["perm"]
+            where = f"leaf {rec['edit'][1]} of argument {rec['edit'][0]} ({rec['shape_kind']}-shaped" + \
+                    (", held in a view" if rec["view_leaf"] else "") + ")"
+            if impl.get("compliant") != "ok:0":
+                report("connect-obj", f"[{rec['label']}] {where} replaced by a signal with "
+                       f"{'initial value ' + str(rec['edit'][4]) if rec['label'] == 'obj-init' else 'width ' + str(rec['edit'][3])}: "
+                       f"is_compliant gives {impl.get('compliant')}", rec, resp, set(), True)
+            for which, r in (("given order", impl), ("reversed order", perm)):
+                if r["result"] != "error:notCompliant":
+                    report("connect-obj", f"[{rec['label']}] {where} no longer matches its signature, but connect() "
+                           f"({which}) gives {r['result']} instead of ConnectionError", rec, resp, set(), True)
         elif kind == "meta":
             chk.distinct(("meta", rec["req"]), nontrivial=bool(rec["sig"]))
+            for tok in (d["meta"].split(";") if d["meta"] != "-" else []):
+                _dir, w, sg, iv = tok.split("=")[1].split(":")
+                if sg == "s":
+                    w, iv = int(w), int(iv)
+                    chk.hist("meta_signed_init", "min" if iv == -(1 << (w - 1)) else "max" if iv == (1 << (w - 1)) - 1
+                             else "-1" if iv == -1 else "0" if iv == 0 else "other")
             if rec["meta"].startswith("error"):
                 classes = {"F10"} if ("F10:" in rec["meta"] and f10_shaped(rec["sig"], False)) else set()
                 report("meta", f"metadata.as_json() failed: {rec['meta'][:100]}", rec, resp, classes, True)
@@ -1199,7 +1337,10 @@ def run(chk):
     chk.cov["rule"] = ("random signature trees (depth<=4, <=2 dims incl. 0, 12 names, shapes: unsigned/signed/int/range/Struct/Union/"
                        "ArrayLayout/Enum(un/signed), inits); per tree: flatten of sig and sig.flip(), create+is_compliant, 3 corrupted "
                        "objects; per tuple (2-4 args = tree + flipped twins, constants): connect + every single-point corruption kind, "
-                       "each also in a permuted order, simulation of accepted ones; distinct = distinct request line; "
+                       "each also in a permuted order, simulation of accepted ones; plus object-side corruptions (a leaf signal of one "
+                       "created interface replaced by one with another init / width, at a random leaf and at view-held "
+                       "(Struct/Union/ArrayLayout/Enum) leaves): is_compliant False and ConnectionError in both orders; "
+                       "metadata trees are half signed-biased with inits at min/max/-1/0; distinct = distinct request line; "
                        "non-trivial = non-empty signature")
     chk.assumptions += [
         "Signature.__eq__ is modelled structurally and order-sensitively (the harness never reorders members); "
